@@ -98,8 +98,8 @@ def _apply_op(zs, op):
         if k == 'bufsz':
             return ('B', zs.get_buffer_sizes(int(op[1]), int(op[2])))
         return ('?',)
-    except Exception:   # any exception is "failure"; its type is not part of the API
-        return FAIL
+    except (Exception, SystemExit):   # any exception is "failure" (the code under test even calls sys.exit() on
+        return FAIL                    # some impossible dates); its type is not part of the API
 
 
 def parse(text):
